@@ -7,6 +7,12 @@ fn l1(ctx: &mut Ctx) {
     crate::l1::run(ctx);
 }
 
+/// the component simulation with 130..229 peers: all of them idle at once, then all speaking at once
+fn l1_crowd(ctx: &mut Ctx) {
+    crate::l1::CROWD.with(|c| c.set(true));
+    crate::l1::run(ctx);
+}
+
 /// L2 liveness: at quiescence no complete undelivered message may exist while the application is
 /// parked in recv (the `not_delivered_at_quiescence` clause of the delivery oracle).
 fn l2(ctx: &mut Ctx) {
@@ -20,10 +26,11 @@ pub fn def() -> PropDef {
     PropDef {
         id: "C06",
         level: "exploration",
-        rule: "l1: one case = one seeded history of the real fair queue with 1..4 scripted peers, foreign events (produce+wake, insert, close, spurious/stale wake) placed between polls, inside stream polls and at every mutex boundary; non-trivial when an event landed while poll_next was in progress; l2: receive world as in C05; l2_rejoin: the 96 departure/rejoin histories of C16 (6 socket types x 4 timings x {close, cut, reset, old connection left open}) under drawn transport and schedule, judged only for 'the rejoined peer's message is delivered'; distinct = distinct (plan hash, schedule hash, transport hash) among non-trivial cases",
+        rule: "l1: one case = one seeded history of the real fair queue with 1..4 scripted peers, foreign events (produce+wake, insert, close, spurious/stale wake) placed between polls, inside stream polls and at every mutex boundary; non-trivial when an event landed while poll_next was in progress; l1_crowd: the same with 130..229 peers, no fairness phase, and two rounds of 'everything delivered, receiver parked, every peer produces one item'; l2: receive world as in C05; l2_rejoin: the 96 departure/rejoin histories of C16 (6 socket types x 4 timings x {close, cut, reset, old connection left open}) under drawn transport and schedule, judged only for 'the rejoined peer's message is delivered'; distinct = distinct (plan hash, schedule hash, transport hash) among non-trivial cases",
         assumptions: &["wakers are fired at most once per registration except for injected spurious/stale wakes, which relax the fairness bound by one each", "fairness bound asserted: at most 2n+2 (+1 per injected spurious wake) deliveries from other peers while a peer has an item queued; looser than the implementation's n-1 on purpose"],
         strata: vec![
             Stratum { name: "l1_fairqueue", quick: 800_000, thorough: (20_000_000) * 2, exhaustive: (false, false), run: l1, what: "component simulation of the fair queue with in-window events" },
+            Stratum { name: "l1_crowd", quick: 3_000, thorough: 300_000, exhaustive: (false, false), run: l1_crowd, what: "the component simulation with 130..229 peers: a crowd that is idle all at once (one call polls every stream without a delivery), then speaks all at once: nobody is left unheard" },
             Stratum { name: "l2_rejoin", quick: 19_200, thorough: 1_600_000, exhaustive: (false, false), run: super::c16::rejoin_heard, what: "a peer that comes back under its announced identity (old connection closed, cut, reset, or still open and idle; four timings) is heard: its message is available, recv completes" },
             Stratum { name: "l2_liveness", quick: 60_000, thorough: (1_000_000) * 2, exhaustive: (false, false), run: l2, what: "whole library: nobody parked in recv while a complete message is undelivered" },
         ],
